@@ -26,6 +26,9 @@ type GenCfg struct {
 	MaxDepth          int
 	Stable            []nt.Stable_how
 	Excluded          *int // counts draws re-routed because of a known finding
+	// RegrowAfterCut: a SETATTR that cuts off less than two blocks may be followed at once by growing back and reading
+	// (three requests in one action: not for units whose timeline takes an action as one step)
+	RegrowAfterCut bool
 }
 
 func DefaultCfg() GenCfg {
@@ -317,6 +320,12 @@ func (g *Gen) Actions(fail func(t *rapid.T, err error)) map[string]func(*rapid.T
 					}
 				}
 				err = x.Setattr(r, &sz, pct(t, 30, "touch?"))
+				if g.Cfg.RegrowAfterCut && err == nil && x.LastOK && r.N != nil && r.N.Alive && sz < old && old-sz < 2*BlockSize && rapid.Bool().Draw(t, "regrow") {
+					// grow back at once and look at what the cut-off range holds now
+					if err = x.Setattr(r, &old, false); err == nil && x.LastOK {
+						err = x.Read(r, sz-sz%BlockSize, 3*BlockSize)
+					}
+				}
 			} else {
 				err = x.Setattr(r, nil, true)
 			}
